@@ -75,6 +75,17 @@ func Extension(opts ExtensionOpts) extensions.Extension {
 	}
 }
 
+// NewFeed implements extensions.PerFeedExtension.
+//
+// Elevator alerts are deduplicated within one feed message, so each message gets
+// an extension with the same options and its own, empty deduplication state.
+func (e extension) NewFeed() extensions.Extension {
+	return extension{
+		opts:           e.opts,
+		elevatorAlerts: map[string]*gtfsrt.Alert{},
+	}
+}
+
 const (
 	// The value of the language field in the description string containing the metadata.
 	MetadataLanguage = "github.com/jamespfennell/gtfs/extensions/nyctalerts/Metadata"
